@@ -30,7 +30,17 @@ import (
 )
 
 const (
-	batchInterval = 500 * time.Millisecond // lnd's default graph batch-commit interval
+	// settleQuantum is the fake time the simulator lets pass before it
+	// declares the node quiescent.
+	settleQuantum = 500 * time.Millisecond
+	// batchCommit is the graph store's batch-commit interval. lnd's daemon
+	// default is 500ms; it must be zero here: the gossiper holds its
+	// per-channel mutex across the (timer driven) batch commit, and a
+	// goroutine blocked on a sync.Mutex is not "durably blocked" for
+	// synctest, so the fake clock could never reach the timer while a second
+	// message for the same channel is waiting for that mutex. A zero interval
+	// is what graphdb.DefaultOptions() uses.
+	batchCommit = 0
 	trickleDelay  = 30 * time.Second
 	startHeight   = 100
 )
@@ -180,7 +190,7 @@ func (w *World) settle() {
 	for i := 0; ; i++ {
 		synctest.Wait()
 		a := w.activityCount()
-		time.Sleep(batchInterval)
+		time.Sleep(settleQuantum)
 		synctest.Wait()
 		if w.activityCount() == a {
 			return
@@ -210,7 +220,7 @@ func NewWorld(r *simcore.Run, chain *SimChain, self *uNode, npeers int, syncPeer
 	w.kv.OnTx = count
 	w.aux.OnTx = count
 
-	store, err := graphdb.NewKVStore(w.kv, graphdb.WithBatchCommitInterval(batchInterval))
+	store, err := graphdb.NewKVStore(w.kv, graphdb.WithBatchCommitInterval(batchCommit))
 	r.Must(err, "graph store")
 	w.cg, err = graphdb.NewChannelGraph(store, graphdb.WithSyncGraphCachePopulation())
 	r.Must(err, "channel graph")
